@@ -673,7 +673,10 @@ class BaseBackend(CodeGen):
             return idx
 
     def _process_delay(self, delay: Union[ComputeVar, float]) -> str:
-        return f"{delay}[{self._start_idx}]" if type(delay) is ComputeVar and delay.shape else f"{delay}"
+        # single-element constants are passed to the generated function as 0-d scalars (see `get_var`)
+        if type(delay) is ComputeVar and delay.shape and int(np.prod(delay.shape)) > 1:
+            return f"{delay}[{self._start_idx}]"
+        return f"{delay}"
 
     def _validate_solver(self, solver: str) -> None:
         """Raise a helpful error if the requested solver is not supported.
